@@ -727,7 +727,8 @@ func (m *model) exec(n *Node, fr *frame) sig {
 
 type outcome struct {
 	trace     []string
-	err       string // "" = nil error; anyMsg = some error
+	err       string // the error text when failed; anyMsg = some error
+	failed    bool   // the run ends with an error (its text may be empty: `throw ""` is a throw)
 	val       interface{}
 	ambiguous bool
 	ambigCF   bool
@@ -747,6 +748,7 @@ func runModel(w *Work, faults map[int]string, pol policy) outcome {
 	o := outcome{trace: m.trace, ambiguous: m.ambiguous, ambigCF: m.ambiguousCF, calls: m.calls, fired: m.fired, val: r.val}
 	if r.kind == 1 {
 		o.err = r.msg
+		o.failed = true
 	}
 	return o
 }
@@ -932,6 +934,9 @@ func (g *gen) stmt(c gctx) *Node {
 			msg := "t" + strconv.Itoa(id)
 			if g.r.Intn(3) == 0 {
 				msg += []string{" 100%", " %d of %s", "%", " 5%%"}[g.r.Intn(4)] // a thrown text is data, whatever it contains
+			}
+			if g.r.Intn(10) == 0 {
+				msg = "" // an empty text is thrown like any other
 			}
 			return &Node{K: "throw", ID: id, Msg: msg}
 		case k == 16:
@@ -1132,14 +1137,14 @@ func (Prop) Run(t *testing.T, c *harness.Case, verbose bool) *harness.Result {
 	if a.ambigCF {
 		res.Counters["control_flow_left_a_try_body"]++
 	}
-	if a.err != "" {
+	if a.failed {
 		res.Counters["uncaught_error_expected"]++
 	}
 	nfired := 0
 	for _, v := range a.fired {
 		nfired += v
 	}
-	res.Nontrivial = nfired > 0 || a.err != ""
+	res.Nontrivial = nfired > 0 || a.failed
 	if verbose {
 		res.Log = append(res.Log, "source:\n"+src, "real trace:  "+strings.Join(trace, " "), "model trace: "+strings.Join(a.trace, " "),
 			fmt.Sprintf("real err=%q val=%v; model err=%q val=%v", got, val, a.err, a.val))
@@ -1159,17 +1164,17 @@ func (Prop) Run(t *testing.T, c *harness.Case, verbose bool) *harness.Result {
 		if !matchTrace(o.trace, trace) {
 			return false, "trace"
 		}
-		if (o.err == "") != (got == "") {
+		if o.failed != (rerr != nil) {
 			return false, "error"
 		}
 		if strings.HasPrefix(o.err, subMsg) {
 			if !strings.Contains(got, strings.TrimPrefix(o.err, subMsg)) {
 				return false, "error"
 			}
-		} else if o.err != "" && o.err != anyMsg && o.err != got {
+		} else if o.failed && o.err != anyMsg && o.err != got {
 			return false, "error"
 		}
-		if o.err == "" && o.val != anyVal && o.val != nil && o.val != val {
+		if !o.failed && o.val != anyVal && o.val != nil && o.val != val {
 			return false, "value"
 		}
 		return true, ""
